@@ -25,6 +25,7 @@ def concurrent(ctx, v, n):
     r1 = vlib.tlc_check(ctx.scratch, "MuxImplMC", "MuxImpl_TRUE.cfg" if ctx.tier == "quick" else "MuxImpl_thorough.cfg", workers=8, heap_mb=12000, timeout=1800)
     vlib.tlc_check(ctx.scratch, "MuxImplMC", "MuxImpl_FALSE.cfg", workers=1, expect_violation="NoCrash")
     vlib.tlc_check(ctx.scratch, "MuxImplMC", "MuxImpl_waits.cfg", workers=1, expect_violation="NeverWaitsBehindHandler")
+    vlib.tlc_check(ctx.scratch, "MuxImplMC", "MuxImpl_leak.cfg", workers=1, expect_violation="ReadersAreRunning")
     d = ctx.scratch.sub("mc")
     tpath = os.path.join(d, "trace.ndjson")
     p = vlib.run_harness(ctx.harness, ["muxconc", "-out", tpath, "-seed", str(ctx.seed), "-n", str(n), "-repo", vlib.REPO], timeout=600)
